@@ -164,4 +164,34 @@ Definition impl_limit (d : dialect) (full : list A) chain (n : Z) : outcome (lis
       end)
   end).
 
+(* ---------- Cls.select(limit=k): the window the constructor sets ---------- *)
+Definition ctor_start (k : option Z) : outcome sel :=
+  match k with
+  | None => Good (SWin (VInt 0) VNone)
+  | Some k => obind (lift (ctor_limit (VInt k) VNone VNone)) (fun w =>
+              match w with Some (s, e) => Good (SWin s e) | None => Good (SWin (VInt 0) VNone) end)
+  end.
+
+(* the library: select(limit=k)[a1:b1][a2:b2]... then list(...), [...][i] or .limit(n) *)
+Definition impl_list_from (d : dialect) (full : list A) (k : option Z) chain : outcome (list A) :=
+  obind (ctor_start k) (fun x0 => obind (run_chain d full x0 chain) (materialise d full)).
+Definition impl_index_from (d : dialect) (full : list A) (k : option Z) chain (i : Z) : outcome A :=
+  obind (ctor_start k) (fun x0 => obind (run_chain d full x0 chain) (fun x => step_index d full x i)).
+Definition limit_at (d : dialect) (full : list A) (x : sel) (n : Z) : outcome (list A) :=
+  match x with
+  | SList l => PyErr E_Type
+  | SWin s e =>
+      obind (lift (limit_call s e (VInt n))) (fun r =>
+      match r with
+      | RSelf => run_select d full s e
+      | RWin s' e' => run_select d full s' e'
+      | RList a' b' =>
+          obind (lift (pv_opt a')) (fun a' => obind (lift (pv_opt b')) (fun b' =>
+          obind (run_select d full s e) (fun l => Good (pyslice a' b' l))))
+      | _ => PyErr E_Other
+      end)
+  end.
+Definition impl_limit_from (d : dialect) (full : list A) (k : option Z) chain (n : Z) : outcome (list A) :=
+  obind (ctor_start k) (fun x0 => obind (run_chain d full x0 chain) (fun x => limit_at d full x n)).
+
 End WithA.
